@@ -46,15 +46,25 @@ pub enum Next {
     Stop,
 }
 
+/// what the receiving driver does with a result
+#[derive(Clone, Copy, Debug, PartialEq)]
+pub enum Go {
+    /// drop the guard (the message is consumed) / go on after an error
+    Next,
+    /// `RecvGuard::retain()`: the message stays in the receiver
+    Retain,
+    Stop,
+}
+
 pub type Fut<'a> = Pin<Box<dyn Future<Output = ()> + 'a>>;
 
 pub trait IoShape: Send + Sync {
     fn id(&self) -> &'static str;
     fn desc(&self) -> Desc;
     fn send_blocking(&self, pipe: Box<dyn Write + '_>, cap: CapSpec, msgs: &[Value], kind: Kind, ctl: &mut dyn FnMut(usize, &SendOut) -> Next);
-    fn recv_blocking(&self, pipe: Box<dyn Read + '_>, cap: CapSpec, ctl: &mut dyn FnMut(&RecvOut) -> bool);
+    fn recv_blocking(&self, pipe: Box<dyn Read + '_>, cap: CapSpec, ctl: &mut dyn FnMut(&RecvOut) -> Go);
     fn send_async<'a>(&'a self, pipe: Box<dyn AsyncWrite + Unpin + 'a>, cap: CapSpec, msgs: &'a [Value], kind: Kind, ctl: Box<dyn FnMut(usize, &SendOut) -> Next + 'a>) -> Fut<'a>;
-    fn recv_async<'a>(&'a self, pipe: Box<dyn AsyncRead + Unpin + 'a>, cap: CapSpec, ctl: Box<dyn FnMut(&RecvOut) -> bool + 'a>) -> Fut<'a>;
+    fn recv_async<'a>(&'a self, pipe: Box<dyn AsyncRead + Unpin + 'a>, cap: CapSpec, ctl: Box<dyn FnMut(&RecvOut) -> Go + 'a>) -> Fut<'a>;
 }
 
 pub struct IoShapeOf<M: ?Sized> {
@@ -121,19 +131,25 @@ impl<M: Node + ?Sized + 'static> IoShape for IoShapeOf<M> {
         }
     }
 
-    fn recv_blocking(&self, pipe: Box<dyn Read + '_>, cap: CapSpec, ctl: &mut dyn FnMut(&RecvOut) -> bool) {
+    fn recv_blocking(&self, pipe: Box<dyn Read + '_>, cap: CapSpec, ctl: &mut dyn FnMut(&RecvOut) -> Go) {
         let mut receiver = match cap {
             CapSpec::Io(max) => Receiver::<M, _>::io(pipe, max),
             CapSpec::Buf(_) => Receiver::<M, _>::new(buf::<M, _>(pipe, cap)),
         };
         loop {
-            let out = match receiver.recv() {
-                Ok(guard) => see::<M>(&guard),
-                Err(RecvError::Parse(e)) => RecvOut::Parse(format!("{:?}@{}", e.kind, e.pos)),
-                Err(RecvError::Read(e)) => RecvOut::Read(e.kind()),
-                Err(RecvError::Closed) => RecvOut::Closed,
+            let go = match receiver.recv() {
+                Ok(guard) => {
+                    let go = ctl(&see::<M>(&guard));
+                    if go == Go::Retain {
+                        guard.retain();
+                    }
+                    go
+                }
+                Err(RecvError::Parse(e)) => ctl(&RecvOut::Parse(format!("{:?}@{}", e.kind, e.pos))),
+                Err(RecvError::Read(e)) => ctl(&RecvOut::Read(e.kind())),
+                Err(RecvError::Closed) => ctl(&RecvOut::Closed),
             };
-            if !ctl(&out) {
+            if go == Go::Stop {
                 return;
             }
         }
@@ -167,20 +183,26 @@ impl<M: Node + ?Sized + 'static> IoShape for IoShapeOf<M> {
         })
     }
 
-    fn recv_async<'a>(&'a self, pipe: Box<dyn AsyncRead + Unpin + 'a>, cap: CapSpec, mut ctl: Box<dyn FnMut(&RecvOut) -> bool + 'a>) -> Fut<'a> {
+    fn recv_async<'a>(&'a self, pipe: Box<dyn AsyncRead + Unpin + 'a>, cap: CapSpec, mut ctl: Box<dyn FnMut(&RecvOut) -> Go + 'a>) -> Fut<'a> {
         Box::pin(async move {
             let mut receiver = match cap {
                 CapSpec::Io(max) => AsyncReceiver::<M, _>::io(pipe, max),
                 CapSpec::Buf(_) => AsyncReceiver::<M, _>::new(buf::<M, _>(pipe, cap)),
             };
             loop {
-                let out = match receiver.recv().await {
-                    Ok(guard) => see::<M>(&guard),
-                    Err(RecvError::Parse(e)) => RecvOut::Parse(format!("{:?}@{}", e.kind, e.pos)),
-                    Err(RecvError::Read(e)) => RecvOut::Read(e.kind()),
-                    Err(RecvError::Closed) => RecvOut::Closed,
+                let go = match receiver.recv().await {
+                    Ok(guard) => {
+                        let go = ctl(&see::<M>(&guard));
+                        if go == Go::Retain {
+                            guard.retain();
+                        }
+                        go
+                    }
+                    Err(RecvError::Parse(e)) => ctl(&RecvOut::Parse(format!("{:?}@{}", e.kind, e.pos))),
+                    Err(RecvError::Read(e)) => ctl(&RecvOut::Read(e.kind())),
+                    Err(RecvError::Closed) => ctl(&RecvOut::Closed),
                 };
-                if !ctl(&out) {
+                if go == Go::Stop {
                     return;
                 }
             }
